@@ -71,7 +71,7 @@ Theorem f2_loop_exhausts (fb : flat) : frag2 fb = true -> fl_errors_fail fb = fa
   (forall s, In s (map (cand_fseq fb) res) <-> valid_b (code_sem fb) s = true).
 Proof.
   intros HF He requested draws res Hd Hrun Hreq.
-  destruct (f2_memos_total fb HF) as (m & lm & HM & Hen).
+  destruct (f2_memos_total fb HF) as (m & lm & cn & lcn & HM & Hen & Hcn).
   destruct (loop_exhausts key key_eqb key_eqb_spec (key_accepted fb) (length (keys_of fb)) requested
               (keys_of fb) (f2_keys_nodup fb HF) eq_refl draws res Hd Hrun) as (Hnd & Hsub & _ & Hall).
   destruct (f2_accepted_exact fb HF He) as [Hnd' Hiff].
@@ -87,8 +87,8 @@ Proof.
   split.
   - apply NoDup_map_inj_in; [|exact Hnd]. intros k1 k2 H1 H2 E.
     pose proof (proj1 (Hsub k1 H1)) as Hk1. pose proof (proj1 (Hsub k2 H2)) as Hk2.
-    destruct (f2_decode_key fb HF m lm HM Hen k1 (f2_keys_of_ok fb HF m lm HM Hen k1 Hk1)) as [r1 [Hd1 _]].
-    destruct (f2_decode_key fb HF m lm HM Hen k2 (f2_keys_of_ok fb HF m lm HM Hen k2 Hk2)) as [r2 [Hd2 _]].
+    destruct (f2_decode_key fb HF m lm cn lcn HM Hen Hcn k1 (f2_keys_of_ok fb HF m lm cn lcn HM Hen Hcn k1 Hk1)) as [r1 [Hd1 _]].
+    destruct (f2_decode_key fb HF m lm cn lcn HM Hen Hcn k2 (f2_keys_of_ok fb HF m lm cn lcn HM Hen Hcn k2 Hk2)) as [r2 [Hd2 _]].
     unfold cand_fseq in E. rewrite Hd1, Hd2 in E.
     apply (f2_cand_inj fb HF k1 k2 r1 r2 Hk1 Hk2 Hd1 Hd2 E).
   - intros s. rewrite <- Hiff. split; intros Hin; apply in_map_iff in Hin; destruct Hin as [k [E Hk]];
